@@ -16,9 +16,13 @@ MUTANTS = [
     {'name': 'random-tie-break', 'rule': 'D5.determ', 'file': I, 'old': "    score = score_left + score_right + score_both\n", 'new': "    score = score_left + score_right + score_both + np.random.uniform(0, 1e-9, len(score_both))\n"},
     {'name': 'deprecated-drops-arg', 'rule': 'D6.forward', 'file': 'bivariate/base.py', 'old': "        return select_copula(X)", 'new': "        return select_copula(X[:1000])"},
     {'name': 'only-clayton', 'rule': 'D1.state', 'file': I, 'old': "    for copula_class in [Clayton, Gumbel]:", 'new': "    for copula_class in [Clayton]:"},
+    {'name': 'rank-by-argsort', 'rule': 'D3.index', 'file': 'bivariate/__init__.py', 'count': 1,
+     'old': "    score_left = pd.Series(diff_left).rank(ascending=False)", 'new': "    score_left = len(diff_left) - np.argsort(np.asarray(diff_left))"},
 ]
 REWRITES = [
     {'name': 'argmax-method', 'file': I, 'old': "selected_copula = np.argmax(score.to_numpy())", 'new': "selected_copula = score.to_numpy().argmax()"},
     {'name': 'tuple-of-classes', 'file': I, 'old': "    for copula_class in [Clayton, Gumbel]:", 'new': "    for copula_class in (Clayton, Gumbel):"},
     {'name': 'negated-distance-argmax', 'file': I, 'old': "    score = score_left + score_right + score_both\n", 'new': "    score = score_both + score_left + score_right\n"},
+    {'name': 'rank-by-double-argsort', 'file': 'bivariate/__init__.py',
+     'old': "    score_left = pd.Series(diff_left).rank(ascending=False)", 'new': "    score_left = len(diff_left) - np.argsort(np.argsort(np.asarray(diff_left)))"},
 ]
